@@ -1,6 +1,7 @@
 /* C04 shim: the three vector classes through the SPIF_VECTOR_* interface; elements are spif_str. */
 #include "config.h"
 #include <libast.h>
+extern unsigned int vt_base_level;   /* engine/tracker_shim.c */
 #include <sanitizer/allocator_interface.h>
 
 #define NCLS 3
@@ -45,7 +46,7 @@ static int put(size_t *off, spif_obj_t o)
 int c04_init(void)
 {
     int c;
-    libast_debug_level = 0;
+    libast_debug_level = vt_base_level;
     for (c = 0; c < NCLS; c++) { V[c][0] = mk(c); V[c][1] = NULL; if (SPIF_VECTOR_ISNULL(V[c][0])) return 0; }
     return 1;
 }
@@ -86,9 +87,9 @@ const char *c04_seq_to_array(int cls, int which)
     spif_obj_t *a = SPIF_VECTOR_TO_ARRAY(V[cls][which]);
     outbuf[0] = 0;
     if (n > 0 && !a) return "!to_array returned NULL";
-    if (a && __sanitizer_get_allocated_size(a) < sizeof(spif_obj_t) * (size_t) n) { free(a); return "!to_array block too small"; }
+    if (a && __sanitizer_get_allocated_size(a) < sizeof(spif_obj_t) * (size_t) n) { FREE(a); return "!to_array block too small"; }
     for (i = 0; i < n; i++) if (!put(&off, a[i])) break;
-    free(a);
+    FREE(a);
     return outbuf;
 }
 const char *c04_seq_iter(int cls, int which, int limit)
